@@ -626,7 +626,7 @@ PROPS = {
         "level": "other", "explanation": "", "assumptions": [],
     },
     "C10": {
-        "module": "DnsModel.Theorems.C10", "theorems": [],
+        "module": "DnsModel.Theorems.C10", "theorems": ["Dns.C10.insert_size_limit", "Dns.C10.insert_failure_plain", "Dns.C10.insert_too_large"],
         "families": [{"name": "script-big", "quick": 0, "thorough": 0, "fixed": True}, {"name": "script-fail", "quick": 2500, "thorough": 100000}, {"name": "script", "quick": 500, "thorough": 20000}],
         "oracle": oracle_c10, "nontrivial": lambda c, a: "err:" in a, "shrink": False,
         "rule": "scripts biased to failing arguments (ill-formed / over-long names, tombstone cursors, malformed and out-of-range record texts, second question, overflowing renames); non-trivial = distinct scripts in which at least one operation failed",
@@ -749,7 +749,7 @@ MANIFEST_TEXT = {
             "note": NOTE, "technique": "step-wise model/implementation correspondence on operation scripts + reference decoder oracle"},
     "C09": {"text": "Same scripts as C08; after every operation the decoded message must be the message before with exactly the specified change (abstract list operation on the decoded message)." + PENDING,
             "note": NOTE, "technique": "step-wise correspondence + abstract-message oracle"},
-    "C10": {"text": "Scripts biased to failing arguments and packets around/beyond 8192 and 65535 bytes: every failed call must leave the decoded message unchanged and the object consistent; insertion never exceeds 8192 bytes." + PENDING,
+    "C10": {"text": "Scripts biased to failing arguments and packets around/beyond 8192 and 65535 bytes: every failed call must leave the decoded message unchanged and the object consistent; insertion never exceeds 8192 bytes. Partial Lean theorems (insertion only): for every object, section and record bytes a successful insert_rr leaves at most 8192 bytes whatever the size it started from; on a pointer-free object a failing insert_rr returns the object unchanged; a packet that would exceed the limit is refused with PacketTooLarge." + PENDING,
             "note": NOTE, "technique": "step-wise correspondence + abstract-message oracle"},
     "C11": {"text": "Exhaustive deletion walks (every subset of sections of size 0..5, four sections, two layouts, OPT absent/first/last): termination, exact removal, void-record on second delete, no deleted record yielded again, survivors in order, matching count, emptied section absent." + PENDING,
             "note": NOTE, "technique": "exhaustive small-scope correspondence + walk oracle"},
